@@ -489,16 +489,34 @@ class StmtMixin:
             if isinstance(nv, VSeq):
                 nv.skind = cur.skind
                 self.assume(nv.n >= 0)
+                self.assume_type(nv, type_of(cur))
             if isinstance(nv, VRef):
                 nv.cls, nv.nullable = cur.cls, True if name in spec.types and parse_type(spec.types[name]).nullable else cur.nullable
                 self.assume(z3.And(nv.z >= 0))
             fr.vars[name] = nv
+        if fr.out is not None and any(isinstance(n, (ast.Yield, ast.YieldFrom)) for b in body_nodes for n in ast.walk(b)):
+            if isinstance(fr.out, VOpaque):
+                raise Unsupported("generator loop needs the element type: declare `yields` in the contract")
+            no = fresh(type_of(fr.out), self.fresh_name('yielded'))
+            self.assume(no.n >= 0)
+            self.assume_type(no, type_of(fr.out))
+            fr.out = no
         heap_mod = set(spec.modifies) | self.syntactic_field_writes(body_nodes, fr)
         heap_before = dict(self.heap)
         alloc_before = self.alloc
+        whole = {f for f in heap_mod if '@' not in f}
         for f in sorted(heap_mod):
             fname = f.split('@')[0]
-            if fname in self.heap or self._has_field_type(fname, None):
+            if '@' in f:
+                if fname in whole:
+                    continue
+                ref = self.ev_spec_value(f.split('@', 1)[1], self.spec_env(fr))
+                tree = self.heap_tree(fname, getattr(ref, 'cls', None))
+                fv = fresh(type_of(tree_elem(tree)), self.fresh_name('hv.' + fname))
+                if isinstance(fv, VSeq):
+                    self.assume(fv.n >= 0)
+                self.heap[fname] = sto(tree, ref.z, fv)
+            elif fname in self.heap or self._has_field_type(fname, None):
                 tree = self.heap_tree(fname)
                 self.heap[fname] = fresh(type_of(tree_elem(tree)), self.fresh_name('H.' + fname), 1)
         if self.loop_allocates(body_nodes, fr, spec):
@@ -515,7 +533,7 @@ class StmtMixin:
             guard = iv < src.n
         variant0 = None
         if spec.variant is not None:
-            variant0 = self.ev_spec(spec.variant, self.spec_env(fr))
+            variant0 = self.ev_spec_value(spec.variant, self.spec_env(fr))
         # 4. branch on the guard
         if kind == 'while':
             go = self.test(node.test, fr)
@@ -539,6 +557,8 @@ class StmtMixin:
         for f, tree in self.heap.items():
             if f == '__cls__':
                 continue
+            if f not in havoc_heap and tree is self.heap_init.get(f):
+                continue        # first touched (read) inside the body: same array in every state
             if tree is not havoc_heap.get(f) and f not in {m.split('@')[0] for m in heap_mod}:
                 if f in heap_before or True:
                     raise Unsupported(f"loop at line {node.lineno} modifies heap field {f!r} not in its modifies set")
@@ -546,7 +566,7 @@ class StmtMixin:
             g = self.ev_spec(inv, self.spec_env(fr))
             self.oblige('inv-preserved', g, fr, node, tag=f"{tagp}.{k}", info=inv)
         if variant0 is not None:
-            v1 = self.ev_spec(spec.variant, self.spec_env(fr))
+            v1 = self.ev_spec_value(spec.variant, self.spec_env(fr))
             self.oblige('variant', z3.And(self.as_int(variant0) >= 0, self.as_int(v1) < self.as_int(variant0)),
                         fr, node, tag=tagp, info=spec.variant)
         raise PathEnd()
